@@ -14,7 +14,7 @@
 (* restoring (compile_string restores only on success).  After the session *)
 (* ("bad" phase) valid MOF is compiled on the same object ("good" phase).  *)
 (*                                                                         *)
-(* TLC runs this machine for EVERY session of MofCompile!Sessions(MaxProd) *)
+(* TLC runs this machine for EVERY session of Sessions(MaxProd, OnlyKinds)   *)
 (* and checks                                                              *)
 (*   ImplRefinesReq   the outcome is admissible for the requirement        *)
 (*   PositionFileOK   an error names the file its production stands in     *)
@@ -30,12 +30,12 @@
 (***************************************************************************)
 EXTENDS MofCompileImplOps, Json, IOUtils, SequencesExt
 
-CONSTANTS MaxProd, MaxDepth
+CONSTANTS MaxProd, MaxDepth, OnlyKinds
 
 VARIABLES ses, phase, stack, pfile, emb, nsw, out, errfile, errowner, lost
 vars == <<ses, phase, stack, pfile, emb, nsw, out, errfile, errowner, lost>>
 
-AllSessions == Sessions(MaxProd)
+AllSessions == Sessions(MaxProd, OnlyKinds)
 
 GoodText == <<PlainOf("qualDecl"), PlainOf("class"), PlainOf("instance")>>
 GoodFile == 9
